@@ -99,12 +99,32 @@ def assoc(F, res):
 
 
 # ------------------------------------------------------------------------------------------------
+def _key_fns(F, enum_path):
+    """functions that map a value of the field enum to its keyword: one parameter `&Enum`, result `&str` (an inherent
+    `key()`, or the method of a private trait implemented for the enum) - found by signature, not by name"""
+    out = []
+    for f in F.fns.values():
+        if f["crate"] != "tx3_lang" or is_derive(f) or f.get("argc") != 1 or not f["locals"]:
+            continue
+        if f["locals"][0] not in ("&str", "&'static str") or f["locals"][1] != "&" + enum_path:
+            continue
+        if f.get("impl_trait") in ("std::fmt::Display", "std::convert::AsRef"):
+            continue
+        out.append(f)
+    return out
+
+
 def key_table(F, enum_path):
-    """variant -> key string, from `<Enum>::key`"""
-    short = enum_path.split("::")[-1]
-    f = F.fns.get(enum_path + "::key")
-    if f is None:
-        return None
+    """variant -> key string, from the enum's keyword function"""
+    best = None
+    for f in _key_fns(F, enum_path):
+        t = _key_table_of(F, f, enum_path)
+        if t and (best is None or sum(v is not None for v in t.values()) > sum(v is not None for v in best.values())):
+            best = t
+    return best
+
+
+def _key_table_of(F, f, enum_path):
     arms = e3.variant_arms(f)
     if not arms:
         return None
@@ -176,25 +196,47 @@ BLOCKS_SPEC = [
 _CG = {}
 
 
-def find_consts(F, fn, block_type):
-    """constants that reach the key argument of <block_type>::find in the block's lowering: in the lowering function, its
-    closures and the tx3-lang functions it calls; a key that is a parameter of a helper (`fn require(&self, key)`) is resolved
-    to the constants its callers pass"""
+def _find_fns(F, enum_path):
+    """functions that look a field up by keyword: a `&str` parameter and a result that hands out a `&Enum` (Option / Result
+    of it) - `Block::find`, `Block::require`, a renamed or generic variant of them"""
+    out = set()
+    for f in F.fns.values():
+        if f["crate"] != "tx3_lang" or is_derive(f) or f.get("def_kind") == "Closure" or not f["locals"]:
+            continue
+        params = f["locals"][1:1 + f.get("argc", 0)]
+        if not any(p in ("&str", "&'static str") for p in params):
+            continue
+        if ("&" + enum_path) in f["locals"][0] or ("&'a " + enum_path) in f["locals"][0]:
+            out.add(f["path"])
+    return out
+
+
+def find_consts(F, fn, block_type, enum_path=None):
+    """constants that reach the keyword argument of a field lookup of this block's field enum in the block's lowering: in the
+    lowering function, its closures and the tx3-lang functions it calls; a keyword that is itself a parameter of a helper is
+    resolved to the constants its callers pass"""
     from ..common import outer_origins
     out = set()
     if id(F) not in _CG:
         _CG[id(F)] = CallGraph(F, callbacks=False)
+    finders = _find_fns(F, enum_path) if enum_path else set()
+    finders.add(block_type + "::find")
     reach = _CG[id(F)].reachable([fn["path"]] + [c["path"] for c in with_closures(F, fn)[1:]])
     for p in reach:
         b = F.fns[p]
         if b["crate"] != "tx3_lang":
             continue
         for bi, t in mir.calls(b):
-            if (t.get("callee") or "") == block_type + "::find" and len(t["args"]) > 1:
-                for fn2, o in outer_origins(F, b, t["args"][1], depth=2):
-                    sv = mir.promoted_str(F, o.const) if o.kind == "const" else None
-                    if sv is not None:
-                        out.add(sv)
+            tgt = t.get("resolved") or t.get("callee") or ""
+            if tgt in finders and len(t["args"]) > 1:
+                callee = F.fns.get(tgt)
+                for i, a in enumerate(t["args"]):
+                    if callee is not None and callee["locals"][1 + i] not in ("&str", "&'static str"):
+                        continue
+                    for fn2, o in outer_origins(F, b, a, depth=2):
+                        sv = mir.promoted_str(F, o.const) if o.kind == "const" else None
+                        if sv is not None:
+                            out.add(sv)
     return out
 
 
@@ -229,7 +271,7 @@ def blocks(F, res, G, it):
         lf = F.fns.get("<%s as %s>::into_lower" % (block, LOW))
         if lf is None:
             raise BrokenCheck("lowering of %s not found" % block)
-        looked = find_consts(F, lf, block)
+        looked = find_consts(F, lf, block, enum)
         keys = set(v for v in kt.values() if v)
         for c in sorted(looked):
             key = "%s|find(\"%s\")" % (block.split("::")[-1], c)
